@@ -1,6 +1,7 @@
 import RzmqModel.Driver.Engine
 import RzmqModel.Model.Pair
 import RzmqModel.Driver.Fsm
+import RzmqModel.Model.Routing
 /-! Model-side predictions for the stack-level scenarios of `harness/src/stack.rs` (trace acceptance). -/
 namespace Rzmq.Driver.Stack
 open Rzmq Rzmq.Driver
@@ -51,6 +52,16 @@ def runOp (p : List String) : String :=
   | "churn" :: _ => "churn=ok"           -- C20: buffers and descriptors are given back, whatever the backend
   | "cancel" :: _ => "cancel=ok"          -- C09: dropped API futures lose, duplicate and tear nothing; the sockets stay usable
   | "rchurn" :: _ => "rchurn=ok"          -- C20: receive buffers of closed connections come back, whatever the backend
+  | "bystander" :: _ => "bystander=ok"    -- C17: what another socket of the context does never stops this socket's retries
+  | ["subhist", _, history, probes] =>
+    -- C12: the probes that arrive are those some ACTIVE subscription is a prefix of (subscriptions are counted)
+    let ops := (history.splitOn ";").filter (· != "")
+    let t := ops.foldl (fun (t : Trie) (h : String) =>
+      let topic := parseHex (String.ofList (h.toList.drop 1))
+      if h.toList.head? == some '+' then t.subscribe topic else (t.unsubscribe topic).1) Trie.empty
+    let ps := (probes.splitOn ";").map fun h => parseHex (String.ofList (h.toList.dropWhile (· == 'h')))
+    let got := (List.range ps.length).filter fun i => t.matches (ps[i]!)
+    s!"got={",".intercalate (got.map toString)}"
   | "peerclose" :: _ => "peerclose=seen"  -- C20/C16: the peer of a closed socket learns of it, whatever the backend
   | ["fanin", _, _, _, _, "closeint"] => "fanin=intact"   -- C15/C20: whatever a closing sender still transmits is undamaged
   | "fanin" :: _ => "fanin=ok"           -- C20/C01: every connection of a socket is served, whatever the backend
